@@ -14,6 +14,9 @@ import JanetModel.Lib.Sort
 import JanetModel.Lib.Range
 import JanetModel.Lib.Format
 import JanetModel.Lib.StrC
+import JanetModel.Lib.BufC
+import JanetModel.Lib.ArrC
+import JanetModel.Lib.Boot
 open Driver JanetModel.Lib
 
 inductive V where
@@ -27,17 +30,6 @@ inductive V where
   | other (tok : String)
   deriving Inhabited
 
-partial def V.beq : V → V → Bool
-  | .nil, .nil => true
-  | .tt, .tt => true
-  | .ff, .ff => true
-  | .int a, .int b => a == b
-  | .str k a, .str k' b => k == k' && a == b
-  | .seq k a, .seq k' b => k == k' && a.length == b.length && (a.zip b).all (fun p => V.beq p.1 p.2)
-  | .fn a, .fn b => a == b
-  | _, _ => false
-instance : BEq V := ⟨V.beq⟩
-
 partial def V.show : V → String
   | .nil => "n" | .tt => "t" | .ff => "f"
   | .int i => if i.natAbs < 1000000000000000 then s!"i{i}" else s!"d{i}"
@@ -50,6 +42,20 @@ partial def V.show : V → String
   | .fn n => "F" ++ n
   | .ref k => s!"r{k}"
   | .other t => t
+
+partial def V.beq : V → V → Bool
+  | .nil, .nil => true
+  | .tt, .tt => true
+  | .ff, .ff => true
+  | .int a, .int b => a == b
+  | .str k a, .str k' b => k == k' && a == b
+  | .seq k a, .seq k' b => k == k' && a.length == b.length && (a.zip b).all (fun p => V.beq p.1 p.2)
+  | .fn a, .fn b => a == b
+  | .tbl k a, .tbl k' b => k == k' && V.show (.tbl k a) == V.show (.tbl k' b)
+  | .other a, .other b => a == b
+  | .ref a, .ref b => a == b
+  | _, _ => false
+instance : BEq V := ⟨V.beq⟩
 
 /-- parse one value from the token list -/
 partial def parseV : List String → Option (V × List String)
@@ -202,7 +208,8 @@ def sliceFn (kind : String) (args : List V) : Out :=
            (match slice b s e with
             | none => .err args
             | some r => .ok (.str (match kind with | "buffer" => 1 | "symbol" => 2 | "keyword" => 3 | _ => 0) r) args)
-        | .inr l => (match slice l s e with
+        | .inr l => withMirror (ArrC.slice l s e) (slice l s e) args
+           (match slice l s e with
             | none => .err args
             | some r => .ok (.seq (if kind == "array" then 1 else 0) r) args)
       | _, _ => .err args
@@ -422,19 +429,22 @@ def call (f : String) (args : List V) : Out :=
     let s? : Option (Option (List Nat)) := match src with | .ref 0 => some none | .str _ b => some (some b) | _ => none
     (match s?, optInt (rest.getD 0 .nil), optInt (rest.getD 1 .nil), optInt (rest.getD 2 .nil) with
      | some s, some ds, some ss, some se =>
-       (match bufferBlit d s ds ss (if rest.length ≥ 3 then some se else none) with
+       let se' := if rest.length ≥ 3 then some se else none
+       withMirror (BufC.blit d s ds ss se') (bufferBlit d s ds ss se') args
+       (match bufferBlit d s ds ss se' with
         | some r => .ok (.str 1 r) (setArg0 args (.str 1 r))
         | none => .err args)
      | _, _, _, _ => .err args)
   | "buffer/popn", [.str 1 b, n] =>
     (match intOf n with
-     | some k => (match bufferPopn b k with | some r => .ok (.str 1 r) (setArg0 args (.str 1 r)) | none => .err args)
+     | some k => withMirror (BufC.popn b k) (bufferPopn b k) args
+         (match bufferPopn b k with | some r => .ok (.str 1 r) (setArg0 args (.str 1 r)) | none => .err args)
      | none => .err args)
   | "buffer/clear", [.str 1 _] => .ok (.str 1 []) (setArg0 args (.str 1 []))
   | "buffer/fill", (.str 1 b) :: rest =>
     if rest.length > 1 then .err args else
     (match (match rest with | [x] => intOf x | _ => some 0) with
-     | some byte => let r := bufferFill b byte; .ok (.str 1 r) (setArg0 args (.str 1 r))
+     | some byte => let r := bufferFill b byte; withMirror (BufC.fill b byte) (some r) args (.ok (.str 1 r) (setArg0 args (.str 1 r)))
      | none => .err args)
   | "buffer/new-filled", n :: rest =>
     if rest.length > 1 then .err args else
@@ -454,17 +464,22 @@ def call (f : String) (args : List V) : Out :=
      | some be => (match pushUint b nb be x with
         | some r => .ok (.str 1 r) (setArg0 args (.str 1 r))
         | none => .err args))
-  | "buffer/bit", [.str 1 b, .int i] => (match bitGet b i with | some r => .ok (ofBool r) args | none => .err args)
+  | "buffer/bit", [.str 1 b, .int i] =>
+    withMirror (BufC.bitGet b i) (bitGet b i) args (match bitGet b i with | some r => .ok (ofBool r) args | none => .err args)
   | "buffer/bit-set", [.str 1 b, .int i] =>
+    withMirror (BufC.bitSet b i) (bitSet b i) args
     (match bitSet b i with | some r => .ok (.str 1 r) (setArg0 args (.str 1 r)) | none => .err args)
   | "buffer/bit-clear", [.str 1 b, .int i] =>
+    withMirror (BufC.bitClear b i) (bitClear b i) args
     (match bitClear b i with | some r => .ok (.str 1 r) (setArg0 args (.str 1 r)) | none => .err args)
   | "buffer/bit-toggle", [.str 1 b, .int i] =>
+    withMirror (BufC.bitToggle b i) (bitToggle b i) args
     (match bitToggle b i with | some r => .ok (.str 1 r) (setArg0 args (.str 1 r)) | none => .err args)
   -- ---------------------------------------------------------------- arrays / tuples
   | "array/insert", (.seq 1 a) :: at_ :: xs =>
     (match at_ with
      | .int i =>
+       withMirror (ArrC.insert a i xs) (arrayInsert a i xs) args
        (match arrayInsert a i xs with
         | some r => .ok (.seq 1 r) (setArg0 args (.seq 1 r))
         | none => .err args)
@@ -473,6 +488,7 @@ def call (f : String) (args : List V) : Out :=
     if rest.length > 1 then .err args else
     (match at_, (match rest with | [x] => x | _ => V.int 1) with
      | .int i, .int n =>
+       withMirror (ArrC.remove a i (if rest.isEmpty then none else some n)) (arrayRemove a i n) args
        (match arrayRemove a i n with
         | some r => .ok (.seq 1 r) (setArg0 args (.seq 1 r))
         | none => .err args)
@@ -510,53 +526,57 @@ def call (f : String) (args : List V) : Out :=
   -- ---------------------------------------------------------------- boot.janet sequence functions
   | "take", [.int n, x] =>
     (match x with
-     | .seq _ l => .ok (.seq 0 (takeN n l)) args
-     | .str _ b => .ok (.str 0 (takeN n b)) args
+     | .seq _ l => withMirror (Boot.take n l) (some (takeN n l)) args (.ok (.seq 0 (takeN n l)) args)
+     | .str _ b => withMirror (Boot.take n b) (some (takeN n b)) args (.ok (.str 0 (takeN n b)) args)
      | _ => .skip)
   | "drop", [.int n, x] =>
     (match x with
-     | .seq _ l => .ok (.seq 0 (dropN n l)) args
-     | .str _ b => .ok (.str 0 (dropN n b)) args
+     | .seq _ l => withMirror (Boot.drop n l) (some (dropN n l)) args (.ok (.seq 0 (dropN n l)) args)
+     | .str _ b => withMirror (Boot.drop n b) (some (dropN n b)) args (.ok (.str 0 (dropN n b)) args)
      | _ => .skip)
   | "take-while", [.fn p, .seq _ l] =>
     (match pred p, ints l with
-     | some p, some xs => .ok (.seq 0 ((takeWhileL p xs).map V.int)) args
+     | some p, some xs => withMirror (Boot.takeWhile p xs) (some (takeWhileL p xs)) args (.ok (.seq 0 ((takeWhileL p xs).map V.int)) args)
      | _, _ => .skip)
   | "drop-while", [.fn p, .seq _ l] =>
     (match pred p, ints l with
-     | some p, some xs => .ok (.seq 0 ((dropWhileL p xs).map V.int)) args
+     | some p, some xs => withMirror (Boot.dropWhile p xs) (some (dropWhileL p xs)) args (.ok (.seq 0 ((dropWhileL p xs).map V.int)) args)
      | _, _ => .skip)
   | "take-until", [.fn p, .seq _ l] =>
     (match pred p, ints l with
-     | some p, some xs => .ok (.seq 0 ((takeWhileL (fun x => !p x) xs).map V.int)) args
+     | some p, some xs => withMirror (Boot.takeUntil p xs) (some (takeWhileL (fun x => !p x) xs)) args
+         (.ok (.seq 0 ((takeWhileL (fun x => !p x) xs).map V.int)) args)
      | _, _ => .skip)
   | "drop-until", [.fn p, .seq _ l] =>
     (match pred p, ints l with
-     | some p, some xs => .ok (.seq 0 ((dropWhileL (fun x => !p x) xs).map V.int)) args
+     | some p, some xs => withMirror (Boot.dropUntil p xs) (some (dropWhileL (fun x => !p x) xs)) args
+         (.ok (.seq 0 ((dropWhileL (fun x => !p x) xs).map V.int)) args)
      | _, _ => .skip)
   | "filter", [.fn p, .seq _ l] =>
     (match pred p, ints l with
-     | some p, some xs => .ok (.seq 1 ((xs.filter p).map V.int)) args
+     | some p, some xs => withMirror (Boot.filter p xs) (some (xs.filter p)) args (.ok (.seq 1 ((xs.filter p).map V.int)) args)
      | _, _ => .skip)
   | "count", [.fn p, .seq _ l] =>
     (match pred p, ints l with
-     | some p, some xs => .ok (.int (xs.countP p)) args
+     | some p, some xs => withMirror (Boot.count1 p xs) (some (xs.countP p)) args (.ok (.int (xs.countP p)) args)
      | _, _ => .skip)
   | "find-index", [.fn p, .seq _ l] =>
     (match pred p, ints l with
-     | some p, some xs => .ok (match xs.findIdx? p with | some i => .int i | none => .nil) args
+     | some p, some xs => withMirror (Boot.findIndex p xs) (some (xs.findIdx? p)) args
+         (.ok (match xs.findIdx? p with | some i => .int i | none => .nil) args)
      | _, _ => .skip)
   | "map", [.fn g, .seq _ l] =>
     (match fn1 g, ints l with
-     | some g, some xs => .ok (.seq 1 ((xs.map g).map V.int)) args
+     | some g, some xs => withMirror (Boot.map1 g xs) (some (xs.map g)) args (.ok (.seq 1 ((xs.map g).map V.int)) args)
      | _, _ => .skip)
   | "map", [.fn g, .seq _ l, .seq _ l2] =>
     (match fn2 g, ints l, ints l2 with
-     | some g, some xs, some ys => .ok (.seq 1 ((List.zipWith g xs ys).map V.int)) args
+     | some g, some xs, some ys => withMirror (Boot.map2 g xs ys) (some (List.zipWith g xs ys)) args
+         (.ok (.seq 1 ((List.zipWith g xs ys).map V.int)) args)
      | _, _, _ => .skip)
   | "reduce", [.fn g, .int init, .seq _ l] =>
     (match fn2 g, ints l with
-     | some g, some xs => .ok (.int (reduce g init xs)) args
+     | some g, some xs => withMirror (Boot.reduce g init xs) (some (reduce g init xs)) args (.ok (.int (reduce g init xs)) args)
      | _, _ => .skip)
   | "partition", [.int n, x] =>
     if n < 1 then .skip else
@@ -576,12 +596,20 @@ def call (f : String) (args : List V) : Out :=
      | some cs => .ok (.tbl 1 (merge cs)) args
      | none => .skip)
   | "zipcoll", [.seq _ ks, .seq _ vs] => .ok (.tbl 1 (zipcoll ks vs)) args
-  | "min", xs => (match ints xs with | some l => .ok ((extreme (· < ·) l).elim V.nil V.int) args | none => .skip)
-  | "max", xs => (match ints xs with | some l => .ok ((extreme (· > ·) l).elim V.nil V.int) args | none => .skip)
-  | "min-of", [.seq _ xs] => (match ints xs with | some l => .ok ((extreme (· < ·) l).elim V.nil V.int) args | none => .skip)
-  | "max-of", [.seq _ xs] => (match ints xs with | some l => .ok ((extreme (· > ·) l).elim V.nil V.int) args | none => .skip)
-  | "sum", [.seq _ xs] => (match ints xs with | some l => .ok (.int (sumI l)) args | none => .skip)
-  | "product", [.seq _ xs] => (match ints xs with | some l => .ok (.int (productI l)) args | none => .skip)
+  | "min", xs => (match ints xs with
+      | some l => withMirror (Boot.extreme (fun a b => decide (a < b)) l) (some (extreme (· < ·) l)) args (.ok ((extreme (· < ·) l).elim V.nil V.int) args)
+      | none => .skip)
+  | "max", xs => (match ints xs with
+      | some l => withMirror (Boot.extreme (fun a b => decide (a > b)) l) (some (extreme (· > ·) l)) args (.ok ((extreme (· > ·) l).elim V.nil V.int) args)
+      | none => .skip)
+  | "min-of", [.seq _ xs] => (match ints xs with
+      | some l => withMirror (Boot.extreme (fun a b => decide (a < b)) l) (some (extreme (· < ·) l)) args (.ok ((extreme (· < ·) l).elim V.nil V.int) args)
+      | none => .skip)
+  | "max-of", [.seq _ xs] => (match ints xs with
+      | some l => withMirror (Boot.extreme (fun a b => decide (a > b)) l) (some (extreme (· > ·) l)) args (.ok ((extreme (· > ·) l).elim V.nil V.int) args)
+      | none => .skip)
+  | "sum", [.seq _ xs] => (match ints xs with | some l => withMirror (Boot.sum l) (some (sumI l)) args (.ok (.int (sumI l)) args) | none => .skip)
+  | "product", [.seq _ xs] => (match ints xs with | some l => withMirror (Boot.product l) (some (productI l)) args (.ok (.int (productI l)) args) | none => .skip)
   | "reverse", [x] =>
     (match x with
      | .seq _ l => .ok (.seq 1 l.reverse) args
